@@ -329,6 +329,10 @@ func TestC15_Native(t *testing.T) {
 						c.Failf("silent-loss", "ParseConfig reported no error but token %s %q at byte %d lies outside every attribute and block", tk.Type, tk.Bytes, tk.Range.Start.Byte)
 					}
 				}
+				if utf8.Valid(src) {
+					// an error inside a nested expression must not get lost either
+					checkNoLostDiagnostics(c, src, body)
+				}
 			} else {
 				rejected = true
 			}
